@@ -273,6 +273,30 @@ def reals_exact(model, consts):
     return True
 
 
+def dropped(v, conc, depth=0):
+    """solve.concretize is best effort: what it left out of an object (nested collaborators beyond its depth, function-
+    valued fields) would be missing natively"""
+    if depth > 6:
+        return None
+    if isinstance(v, VOpt):
+        return None if conc is None else dropped(v.inner, conc, depth + 1)
+    if isinstance(v, VObj):
+        if not (isinstance(conc, dict) and "__obj__" in conc):
+            return "object-not-rendered"
+        got = conc.get("fields", {})
+        for k, x in v.fields.items():
+            if k.startswith("__"):
+                continue
+            if isinstance(x, (VFunc, VClass, VExt, VBoundExt)):
+                return "function-valued-field"
+            if k not in got:
+                return "nested-object-dropped"
+            q = dropped(x, got[k], depth + 1)
+            if q:
+                return q
+    return None
+
+
 def _bytes_constraints(v, out, seen, depth=0):
     if depth > 8 or v is None:
         return
@@ -319,6 +343,14 @@ def trace_in_scope(trace, reg, genkey=None):
                 h = reg.boundary.get(key)
                 if h is not None:
                     break
+            if cls in reg.repo_classes:
+                # a method the repository class inherits from a library base (TimeoutMixin.setTimeout, ...): natively
+                # the real library code runs on the real object, nothing is recorded and its result is not None
+                return None, "trace:bcall(inherited library method)"
+            if not str(meth).isidentifier() or reg.boundary.get("set." + str(meth)) is not None:
+                # an event written by a property module's own hook (`each:m` of a modelled comprehension, a method of a
+                # set subclass): not a plain call on a collaborator
+                return None, "trace:bcall(modelled collaborator)"
             if h is None or getattr(h, "__name__", "") != "generic_boundary":
                 return None, "trace:bcall(modelled collaborator)"
             br = getattr(reg, "boundary_returns", {}) or {}
@@ -372,6 +404,15 @@ def witness(c, reg, ctx, pr, outcome, unit):
     bcalls, why = trace_in_scope(ctx.trace, reg, fd.key if gen else None)
     if why:
         return skip(why)
+    if c.target.startswith("lemma:") and c.source_text is None:
+        return skip("lemma-over-a-body-fragment")       # not a function of the repository: nothing to call natively
+    if c.pre_hook is not None:
+        # the hook wires the pre-state beyond the declared types (identity with module-level singletons, callbacks
+        # that are bound methods of self, ghost bindings): the generic driver cannot rebuild that
+        return skip("pre-hook-wired-state")
+    if (c.replay or {}).get("driver"):
+        # the property module says the generic driver cannot rebuild this function's objects (README: Contract.replay)
+        return skip("custom-replay-driver")
     if ctx.imprecise:
         return skip("imprecise-encoding")
     if getattr(ctx, "bounded", None):
@@ -385,7 +426,7 @@ def witness(c, reg, ctx, pr, outcome, unit):
         return skip("input-type-not-buildable")
 
     pc = list(ctx.pc)
-    in_terms = zexprs(VList(list(ctx.inputs.values())), [])
+    in_terms = zexprs(VList([v for k, v in ctx.inputs.items() if k not in c.ghost]), [])    # ghost parameters do not exist natively
     in_consts, _ = symbols(in_terms)
     # what the comparison will look at
     result = getattr(pr, "result", None)
@@ -437,6 +478,7 @@ def witness(c, reg, ctx, pr, outcome, unit):
         prob = input_problem(inputs)
         if prob == "float" and reals_exact(model, in_consts.values()):
             prob = input_problem(inputs, floats_ok=True)
+        prob = prob or next((q for q in (dropped(ctx.inputs[k], inputs[k]) for k in ctx.inputs if k not in c.ghost) if q), None)
         if prob:
             return skip("input:" + prob)
 
@@ -669,6 +711,22 @@ def run_task(c, partials, info):
             if first:
                 verdict[w["path"]] = "native:" + n["skip"]
             continue
+        if c.source_text is not None and (n.get("exc") == "NameError" or "state-machine output method" in str(n.get("msg"))):
+            # a lemma harness that calls spec functions (they only exist on our side) or an Automat output directly
+            # (Automat refuses that; on our side an output under a harness is a plain method)
+            if first:
+                verdict[w["path"]] = "native:lemma-harness-not-runnable"
+            continue
+        if n.get("exc") == "AttributeError" and w["expect"].get("exc") != "AttributeError":
+            # the real code read an attribute of self that the contract does not declare, the symbolic path did not: the
+            # read sits in dropped syntax (status reporting, logging: `DROPPED`, reg.drop_calls) - the argument
+            # expressions of a dropped call are not evaluated on our side
+            import re as _re
+            m_ = _re.search(r"'(\w+)' object has no attribute '(\w+)'", str(n.get("msg")))
+            if m_ and m_.group(1) == c.target.split(":")[-1].split(".")[0] and m_.group(2) not in (c.self_fields or {}):
+                if first:
+                    verdict[w["path"]] = "native:undeclared-attribute-read(dropped syntax)"
+                continue
         if not first and verdict.get(w["path"]) not in ("agree", "mismatch"):
             continue
         exp = w["expect"]
